@@ -221,6 +221,10 @@ func C28Ask(app *sdk.BaseApp, q C28Query, c C28Case, simTx []byte) (ans C28Answe
 	}
 	switch q.Kind {
 	case "store":
+		if len(r.Value) == 0 && r.Log != "" {
+			// the store signals "version does not exist" through the log only
+			return C28Answer{Err: "log-only: " + strings.SplitN(r.Log, "\n", 2)[0]}
+		}
 		return C28Answer{Data: hex.EncodeToString(r.Value), Height: r.Height}
 	case "sim":
 		var res sdk.Result
@@ -314,7 +318,7 @@ func C28RunRef(c C28Case) (*C28Ref, error) {
 	// number/sequence in its signature never matter; simulate skips the check)
 	ai, err := ch.Account(c28SimKey.Addr)
 	if err != nil {
-		return nil, fmt.Errorf("harness: %v", err)
+		return nil, fmt.Errorf("query-free reference run (harness signing path queries the account): %v", err)
 	}
 	stx := ec.SignTx(ec.ChainID, []std.Msg{ec.Call(c28SimKey.Addr, C28Path, "Tick", nil, std.Coins{std.NewCoin("ugnot", 1000)})},
 		std.Fee{GasWanted: 60_000_000, GasFee: std.NewCoin("ugnot", 1_000_000)}, "", []ec.Key{c28SimKey}, []uint64{ai.Number}, []uint64{0})
@@ -365,7 +369,7 @@ func C28RunRef(c C28Case) (*C28Ref, error) {
 	for _, r := range []struct{ Path, Src string }{{C28Path, C28Realm}, {ec.PathKV, ec.RealmKV}} {
 		rr, tx, err := ch.Send([]std.Msg{ec.AddPkg(keys[0].Addr, r.Path, map[string]string{"a.gno": r.Src}, nil)}, 50_000_000, 1_000_000, keys[0])
 		if err != nil {
-			return nil, fmt.Errorf("harness: %v", err)
+			return nil, fmt.Errorf("query-free reference run (harness signing path queries the account): %v", err)
 		}
 		if rr.Error != nil {
 			return nil, fmt.Errorf("harness: realm %s failed to deploy: %v %s", r.Path, rr.Error, rr.Log)
@@ -397,7 +401,7 @@ func C28RunRef(c C28Case) (*C28Ref, error) {
 			idx %= len(keys)
 			rr, txb, err := ch.Send([]std.Msg{c28BuildMsg(c, tx, ctr, &npkg)}, 60_000_000, 1_000_000, k)
 			if err != nil {
-				return nil, fmt.Errorf("harness: %v", err)
+				return nil, fmt.Errorf("query-free reference run (harness signing path queries the account): %v", err)
 			}
 			if rr.GasWanted > 0 {
 				seq[idx]++
@@ -425,6 +429,56 @@ func C28RunRef(c C28Case) (*C28Ref, error) {
 
 var c28SeqRe = regexp.MustCompile(`"sequence":\s*"(\d+)"`)
 
+// C28KeyStaleHeight is the known-finding key of the divergence recognised by
+// c28IsStaleHeightMix: a query (or simulate) reads the last committed height
+// BEFORE it pins the query snapshot; when Commit refreshes the snapshot in
+// between (rootmulti.Commit: refreshQuerySnapshot runs before
+// setLastCommitID, BaseApp.Commit: setCheckState/lastBlockHeader even later)
+// the query loads the versioned main store at height h from a snapshot taken
+// after height h+1, whose unversioned base store (GnoVM objects) is already at
+// h+1: one answer mixes two heights.
+const C28KeyStaleHeight = "query-reads-height-before-pinning-snapshot"
+
+// C28Mix is the error returned for that recognised divergence.
+type C28Mix struct{ Msg string }
+
+func (m *C28Mix) Error() string { return m.Msg }
+
+var c28SnapRe = regexp.MustCompile(`N=(\d+);L=(\d+);B=(\d+)`)
+
+// c28IsStaleHeightMix reports whether a Snap()-shaped answer shows the VM
+// state of a height h2 together with the main-store balance of an older
+// height h1 (both within the window).
+func c28IsStaleHeightMix(ref *C28Ref, q C28Query, data string, lo, hi int) (h1, h2 int, ok bool) {
+	m := c28SnapRe.FindStringSubmatch(data)
+	if m == nil {
+		return 0, 0, false
+	}
+	n, _ := strconv.Atoi(m[1])
+	l, _ := strconv.Atoi(m[2])
+	b, _ := strconv.Atoi(m[3])
+	if n != l || b%1000 != 0 {
+		return 0, 0, false
+	}
+	bt := b / 1000
+	if q.Kind == "sim" { // the simulated Tick itself adds one to both
+		n, bt = n-1, bt-1
+	}
+	h1, h2 = -1, -1
+	for h := lo; h <= hi && h <= ref.Last; h++ {
+		if h < 1 {
+			continue
+		}
+		if ref.Ticks[h] == bt && h1 < 0 {
+			h1 = h
+		}
+		if ref.Ticks[h] == n {
+			h2 = h
+		}
+	}
+	return h1, h2, h1 >= 1 && h2 > h1
+}
+
 // C28Check decides one observed answer. lo = height known committed before
 // the query started; hi = highest height whose Commit had been entered when
 // the query returned. It returns the height the answer corresponds to (-1 for
@@ -433,10 +487,20 @@ func C28Check(ref *C28Ref, c C28Case, q C28Query, a C28Answer, lo, hi int) (int,
 	if strings.HasPrefix(a.Err, "PANIC") {
 		return -1, fmt.Errorf("query %+v panicked: %s", q, a.Err)
 	}
-	if !a.OK() {
-		return -1, nil // errors are acceptable, wrong data is not
-	}
 	want := ref.Ans[q.QKey()]
+	if !a.OK() {
+		// Errors are acceptable (pruned or not yet committed height, package
+		// not yet deployed, a commit landing while the query loads its view),
+		// wrong data is not. But a height-less query that ran entirely while
+		// ONE height was the committed one (no Commit call overlapped it) has
+		// exactly the state of the query-free run in front of it: if that run
+		// answers it at this height, an error means block execution or an
+		// earlier commit interfered with the query.
+		if q.Height(c) == 0 && lo == hi && lo >= 1 && lo <= ref.Last && want[lo].OK() {
+			return -1, fmt.Errorf("query %+v failed (%s) although it ran entirely while height %d was the committed one and the query-free run answers it there with %s", q, a.Err, lo, c28Short(want[lo].Data))
+		}
+		return -1, nil
+	}
 	match := func(h int) bool {
 		return h >= 1 && h <= ref.Last && want[h].OK() && want[h].Data == a.Data
 	}
@@ -494,7 +558,13 @@ func C28Check(ref *C28Ref, c C28Case, q C28Query, a C28Answer, lo, hi int) (int,
 			return h, nil
 		}
 	}
-	return -1, fmt.Errorf("query %+v answered %s, which is not the answer of any single height in [%d,%d] (heights committed while it ran); query-free answers:%s", q, c28Short(a.Data), lo, hi, desc())
+	msg := fmt.Sprintf("query %+v answered %s, which is not the answer of any single height in [%d,%d] (heights committed while it ran); query-free answers:%s", q, c28Short(a.Data), lo, hi, desc())
+	if q.Kind == "snap" || q.Kind == "render" || q.Kind == "sim" {
+		if h1, h2, ok := c28IsStaleHeightMix(ref, q, a.Data, lo, hi); ok {
+			return -1, &C28Mix{Msg: fmt.Sprintf("%s\n  => the answer combines the GnoVM state of height %d with the main-store balance of height %d", msg, h2, h1)}
+		}
+	}
+	return -1, fmt.Errorf("%s", msg)
 }
 
 func c28AccIdx(c C28Case, i int) int {
